@@ -620,3 +620,24 @@ def check(case, ctx):
     if part == "negctl":
         return _check_negctl(case, ctx)
     return _check_invalid(case, ctx)
+
+
+# ----------------------------------------------------------------------------
+# every direct library call made by this check must leave the arrays handed
+# to it unchanged (core.GuardedCalls)
+# ----------------------------------------------------------------------------
+def _guard_targets():
+    # (OFDM.demodulate re-shapes the array handed to it - existing behaviour;
+    # its VALUES are checked by hand in _check_ofdm_structure)
+    from pyphysim.modulators import ofdm
+    return [(ofdm.OFDM, "modulate"),
+            (ofdm.OfdmOneTapEqualizer, "equalize_data")]
+
+
+_unguarded_check = check
+
+
+def check(case, ctx):  # noqa: F811
+    from ..core import GuardedCalls
+    with GuardedCalls(_guard_targets(), dict(part=case.get("part"))):
+        return _unguarded_check(case, ctx)
